@@ -31,6 +31,10 @@ pub enum Field {
     OriginContentLength,
     /// origin answers chunked, first chunk-size line is <n> (hexadecimal on the wire as given)
     OriginChunkSize,
+    /// origin answers with a head of <n> header fields (capped at 3000)
+    OriginHeaderCount,
+    /// origin answers with one header field whose value is <n> bytes long (capped at 300000)
+    OriginHeaderLength,
 }
 
 #[derive(Serialize, Deserialize, Debug, Clone)]
@@ -71,7 +75,7 @@ impl Suite for HostileNumbersSuite {
         "hostile-numbers"
     }
     fn rule(&self) -> String {
-        "requests and origin responses that are well-formed except for one peer-chosen number: speedtest download size (speedtest host and /speed/ on the main host), upload Content-Length, CONNECT port, Content-Length on a CONNECT, Content-Length of a forwarded plain-HTTP request, and - as the origin of a forwarded request - the response's Content-Length or first chunk size (hexadecimal); numbers: 0..300, 2^k-2..2^k+2 for k = 7..65, 2^k..2^k+2 for k = 10..54 (overflow only after scaling to bytes), any u32 / u64 / u128, 17-41 digits, negative, signed / 0x-prefixed, leading zeros; sent over real HTTP/1.1 and HTTP/2 sessions in memory (virtual clock, arithmetic overflow checks on); oracle: no panic anywhere in the process (panic-hook counter), the client has a response or a closed connection / stream within 40 virtual seconds, a download size above 100 or an upload above 120 MiB is never answered 200, a port above 65535 never reaches the forwarder; non-trivial = the number is at or beyond 2^16".into()
+        "requests and origin responses that are well-formed except for one peer-chosen number: speedtest download size (speedtest host and /speed/ on the main host), upload Content-Length, CONNECT port, Content-Length on a CONNECT, Content-Length of a forwarded plain-HTTP request, and - as the origin of a forwarded request - the response's Content-Length or first chunk size (hexadecimal), the number of its header fields (0-300, 2^k-2..2^k+2 for k = 4..11, up to 3000) or the length of one field (up to 2^18+1 bytes); numbers: 0..300, 2^k-2..2^k+2 for k = 7..65, 2^k..2^k+2 for k = 10..54 (overflow only after scaling to bytes), any u32 / u64 / u128, 17-41 digits, negative, signed / 0x-prefixed, leading zeros; sent over real HTTP/1.1 and HTTP/2 sessions in memory (virtual clock, arithmetic overflow checks on); oracle: no panic anywhere in the process (panic-hook counter), the client has a response or a closed connection / stream within 40 virtual seconds, a download size above 100 or an upload above 120 MiB is never answered 200, a port above 65535 never reaches the forwarder; non-trivial = the number is at or beyond 2^16 (32 header fields, 1024 bytes of one field)".into()
     }
     fn strategy(&self, _: Tier) -> BoxedStrategy<Case> {
         let field = prop_oneof![
@@ -83,11 +87,19 @@ impl Suite for HostileNumbersSuite {
             1 => Just(Field::ForwardedRequestLength),
             2 => Just(Field::OriginContentLength),
             2 => Just(Field::OriginChunkSize),
+            2 => Just(Field::OriginHeaderCount),
+            1 => Just(Field::OriginHeaderLength),
         ];
         (field, any::<bool>())
             .prop_flat_map(|(field, h2)| {
                 let hex = field == Field::OriginChunkSize;
-                number_strategy(hex).prop_map(move |number| Case { field: field.clone(), number, h2 })
+                let numbers = match field {
+                    // around every size at which a header table may be grown, and far beyond
+                    Field::OriginHeaderCount => prop_oneof![3 => (0u32..300).prop_map(|n| n.to_string()), 3 => (4u32..=11, -2i32..=2).prop_map(|(k, d)| ((1i32 << k) + d).to_string()), 1 => (300u32..3000).prop_map(|n| n.to_string())].boxed(),
+                    Field::OriginHeaderLength => prop_oneof![(0u32..2000).prop_map(|n| n.to_string()), (8u32..=18, -1i32..=1).prop_map(|(k, d)| ((1i32 << k) + d).to_string())].boxed(),
+                    _ => number_strategy(hex),
+                };
+                numbers.prop_map(move |number| Case { field: field.clone(), number, h2 })
             })
             .boxed()
     }
@@ -102,11 +114,17 @@ impl Suite for HostileNumbersSuite {
             Field::ConnectContentLength | Field::ForwardedRequestLength => "request-content-length",
             Field::OriginContentLength => "origin-content-length",
             Field::OriginChunkSize => "origin-chunk-size",
+            Field::OriginHeaderCount | Field::OriginHeaderLength => "origin-head-size",
         }];
         v.push(if c.h2 { "h2" } else { "h1" });
         let radix = if c.field == Field::OriginChunkSize { 16 } else { 10 };
+        let threshold = match c.field {
+            Field::OriginHeaderCount => 32,
+            Field::OriginHeaderLength => 1024,
+            _ => 65_536,
+        };
         let big = match u128::from_str_radix(c.number.trim_start_matches('+'), radix) {
-            Ok(x) => x >= 65_536,
+            Ok(x) => x >= threshold,
             Err(_) => c.number.len() > 20,
         };
         if big {
@@ -115,7 +133,7 @@ impl Suite for HostileNumbersSuite {
         v
     }
     fn required_classes(&self) -> Vec<&'static str> {
-        vec!["nontrivial", "download-size", "upload-length", "connect-port", "request-content-length", "origin-content-length", "origin-chunk-size", "h1", "h2"]
+        vec!["nontrivial", "download-size", "upload-length", "connect-port", "request-content-length", "origin-content-length", "origin-chunk-size", "origin-head-size", "h1", "h2"]
     }
     fn check(&self, c: &Case) -> Verdict {
         let c = c.clone();
@@ -142,7 +160,7 @@ impl Suite for HostileNumbersSuite {
                 Field::ConnectPort => ("CONNECT", format!("dest.example:{}", c.number), vec![], b""),
                 Field::ConnectContentLength => ("CONNECT", "dest.example:443".into(), vec![("content-length".into(), c.number.clone())], b""),
                 Field::ForwardedRequestLength => ("POST", "http://origin.example/submit".into(), vec![("content-length".into(), c.number.clone())], b"abc"),
-                Field::OriginContentLength | Field::OriginChunkSize => ("GET", "http://origin.example/page".into(), vec![], b""),
+                Field::OriginContentLength | Field::OriginChunkSize | Field::OriginHeaderCount | Field::OriginHeaderLength => ("GET", "http://origin.example/page".into(), vec![], b""),
             };
             if channel == ChannelView::Tunnel {
                 headers.push(("proxy-authorization".into(), auth));
@@ -155,6 +173,22 @@ impl Suite for HostileNumbersSuite {
                 Field::OriginContentLength => Some(format!("HTTP/1.1 200 OK\r\nContent-Length: {}\r\n\r\nhello world", c.number).into_bytes()),
                 Field::OriginChunkSize => Some(format!("HTTP/1.1 200 OK\r\nTransfer-Encoding: chunked\r\n\r\n{}\r\nhello world\r\n0\r\n\r\n", c.number).into_bytes()),
                 Field::ForwardedRequestLength => Some(b"HTTP/1.1 200 OK\r\nContent-Length: 2\r\n\r\nok".to_vec()),
+                Field::OriginHeaderCount => {
+                    let n: usize = c.number.parse::<usize>().unwrap_or(0).min(3000);
+                    let mut r = b"HTTP/1.1 200 OK\r\n".to_vec();
+                    for i in 0..n {
+                        r.extend_from_slice(format!("X-H{}: v{}\r\n", i, i).as_bytes());
+                    }
+                    r.extend_from_slice(b"Content-Length: 2\r\n\r\nok");
+                    Some(r)
+                }
+                Field::OriginHeaderLength => {
+                    let n: usize = c.number.parse::<usize>().unwrap_or(0).min(300_000);
+                    let mut r = b"HTTP/1.1 200 OK\r\nX-Long: ".to_vec();
+                    r.extend(std::iter::repeat(b'q').take(n));
+                    r.extend_from_slice(b"\r\nContent-Length: 2\r\n\r\nok");
+                    Some(r)
+                }
                 _ => None,
             };
             let sc = scripted.clone();
